@@ -132,3 +132,49 @@ package slice
 //@   loop 3: invariant dropped: forall k int :: {vs[k]} i <= k && k < j && k < len(vs) ==> !holds(keep, vs[k])
 //@   loop 3: invariant complete: forall t int :: {dst[t]} 0 <= t && t < j && t < len(vs) && holds(keep, old(vs[t])) ==> 0 <= dst[t] && dst[t] < i && src[dst[t]] == t
 //@   loop 3: decreases len(vs) - j
+//@
+//@ import cmp
+//@ import slices
+//@
+// C12 (lis.go): LNDSFunc/LISFunc return a non-decreasing / strictly increasing subsequence of the input (index
+// witnesses w, strictly ascending), never read outside their arrays, and leave the input untouched. Ghost cl[x] is
+// the length of the chain ending at index x. Maximality of the length is a bounded stand-in.
+//@ func bisectRight
+//@   pure
+//@   role cmp pure
+//@   requires [C12] mono: forall a int, b int :: {vs[a], vs[b]} 0 <= a && a <= b && b < len(vs) && apply(cmp, vs[b], target) <= 0 ==> apply(cmp, vs[a], target) <= 0
+//@   ensures [C12] range: 0 <= result && result <= len(vs)
+//@   ensures [C12] below: forall k int :: {vs[k]} 0 <= k && k < result ==> apply(cmp, vs[k], target) <= 0
+//@   ensures [C12] above: forall k int :: {vs[k]} result <= k && k < len(vs) ==> apply(cmp, vs[k], target) > 0
+//@   loop 1: invariant idx: 0 <= low && low <= high && high <= len(vs) && ln == len(vs)
+//@   loop 1: invariant below: forall k int :: {vs[k]} 0 <= k && k < low ==> apply(cmp, vs[k], target) <= 0
+//@   loop 1: invariant above: forall k int :: {vs[k]} high <= k && k < len(vs) ==> apply(cmp, vs[k], target) > 0
+//@   loop 1: decreases high - low
+//@
+//@ pred chainOK(vs Slice, cmp func(T, T) int, prev []int, cl imap[int], m int, L int, strict bool) := forall x int :: {prev[x]} 0 <= x && x < m ==> 1 <= cl[x] && cl[x] <= L && (prev[x] == -1 <==> cl[x] == 1)
+//@+     && (prev[x] != -1 ==> 0 <= prev[x] && prev[x] < x && cl[prev[x]] == cl[x] - 1 && ord(cmp, vs[prev[x]], vs[x]) <= 0 && (strict ==> ord(cmp, vs[prev[x]], vs[x]) < 0))
+//@ pred tailsOK(vs Slice, cmp func(T, T) int, tails []int, cl imap[int], m int, strict bool) := (forall k int :: {tails[k]} 0 <= k && k < len(tails) ==> 0 <= tails[k] && tails[k] < m && cl[tails[k]] == k + 1)
+//@+     && (forall a int, b int :: {tails[a], tails[b]} 0 <= a && a < b && b < len(tails) ==> ord(cmp, vs[tails[a]], vs[tails[b]]) <= 0 && (strict ==> ord(cmp, vs[tails[a]], vs[tails[b]]) < 0))
+//@
+//@ func LNDSFunc
+//@   role cmp ord
+//@   ghostret w imap[int], cl imap[int]
+//@   ensures [C12] empty: len(vs) == 0 ==> result == vs
+//@   ensures [C12] fresh: len(vs) > 0 ==> fresh(result) && len(result) >= 1 && len(result) <= len(vs)
+//@   ensures [C12] subseq: len(vs) > 0 ==> forall k int :: {result[k]} 0 <= k && k < len(result) ==> 0 <= w[k] && w[k] < len(vs) && result[k] == vs[w[k]]
+//@   ensures [C12] order: len(vs) > 0 ==> forall a int, b int :: {result[a], result[b]} 0 <= a && b == a + 1 && b < len(result) ==> w[a] < w[b] && ord(cmp, result[a], result[b]) <= 0
+//@   ensures [C12] input: unchanged(elems(vs))
+//@   at after "tails[0] = 0": ghost cl[0] = 1
+//@   at after "tails = append(tails, i)": ghost cl[i] = len(tails)
+//@   at after "tails[replaceIdx] = i": ghost cl[i] = replaceIdx + 1
+//@   at before "tails[replaceIdx] = i": assert [C12] 0 <= replaceIdx && replaceIdx < len(tails) && (forall k int :: {tails[k]} 0 <= k && k < replaceIdx ==> ord(cmp, vs[tails[k]], vs[i]) <= 0) && (forall k int :: {tails[k]} replaceIdx <= k && k < len(tails) ==> ord(cmp, vs[i], vs[tails[k]]) < 0)
+//@   loop 1: invariant shape: 1 <= len(tails) && len(tails) <= it1 + 1 && it1 + 1 <= len(vs) && cap(tails) == len(vs) && len(prev) == len(vs) && fresh(tails) && fresh(prev) && tails.base != prev.base && unchanged(elems(vs)) && old_arrays_unchanged(tails)
+//@   loop 1: invariant tails: tailsOK(vs, cmp, tails, cl, it1 + 1, false)
+//@   loop 1: invariant chain: chainOK(vs, cmp, prev, cl, it1 + 1, len(tails), false)
+//@   at after "ret[len(ret)-1-i] = vs[seqIdx]": ghost w[len(ret) - 1 - i] = seqIdx
+//@   loop 2: invariant shape: len(ret) == len(tails) && fresh(ret) && ret.base != tails.base && ret.base != prev.base && len(prev) == len(vs) && unchanged(elems(vs))
+//@   loop 2: invariant cursor: (it2 < len(ret) ==> 0 <= seqIdx && seqIdx < len(vs) && cl[seqIdx] == len(ret) - it2) && (it2 == len(ret) ==> true)
+//@   loop 2: invariant filled: forall k int :: {ret[k]} len(ret) - it2 <= k && k < len(ret) ==> 0 <= w[k] && w[k] < len(vs) && ret[k] == vs[w[k]] && cl[w[k]] == k + 1
+//@   loop 2: invariant order: forall a int, b int :: {ret[a], ret[b]} len(ret) - it2 <= a && b == a + 1 && b < len(ret) ==> w[a] < w[b] && ord(cmp, ret[a], ret[b]) <= 0
+//@   loop 2: invariant link: 0 < it2 && it2 < len(ret) ==> seqIdx < w[len(ret) - it2] && ord(cmp, vs[seqIdx], vs[w[len(ret) - it2]]) <= 0
+//@   loop 2: invariant chain: chainOK(vs, cmp, prev, cl, len(vs), len(tails), false)
